@@ -69,11 +69,15 @@ var NoBody = protocol.NoBody
 
 type bodyStream struct {
 	prefetchedBytes *bytes.Reader
-	reader          network.Reader
-	trailer         *protocol.Trailer
-	offset          int
-	contentLength   int
-	chunkLeft       int
+	// prefetched is the stream's own copy of the read-ahead (kept across pool round trips).
+	// The buffer the read-ahead was read into belongs to the message, which reuses it or
+	// hands it back to the shared pool when its body is replaced while the stream is live.
+	prefetched    []byte
+	reader        network.Reader
+	trailer       *protocol.Trailer
+	offset        int
+	contentLength int
+	chunkLeft     int
 	// whether the chunk has reached the EOF
 	chunkEOF bool
 	// error met while reading chunk framing (a size line, the CRLF after the data, the
@@ -111,7 +115,7 @@ func ReadBodyWithStreaming(zr network.Reader, contentLength, maxBodySize int, ds
 			// (Only a buffer that is larger is cut down: a fresh one still gets the 1 KiB
 			// block the read-ahead starts with.)
 			if cap(dst) > readN+1 {
-				dst = dst[:0:readN+1]
+				dst = dst[: 0 : readN+1]
 			}
 		}
 		b, err = readBodyIdentity(zr, readN, dst)
@@ -128,7 +132,8 @@ func ReadBodyWithStreaming(zr network.Reader, contentLength, maxBodySize int, ds
 
 func AcquireBodyStream(b *bytebufferpool.ByteBuffer, r network.Reader, t *protocol.Trailer, contentLength int) io.Reader {
 	rs := bodyStreamPool.Get().(*bodyStream)
-	rs.prefetchedBytes = bytes.NewReader(b.B)
+	rs.prefetched = append(rs.prefetched[:0], b.B...)
+	rs.prefetchedBytes = bytes.NewReader(rs.prefetched)
 	rs.reader = r
 	rs.contentLength = contentLength
 	rs.trailer = t
